@@ -82,7 +82,7 @@ def converter_correspondence(run):
             if u == v:
                 continue
             ops.append({"op": "conv", "u": u, "v": v, "x": [corr.fstr(x) for x in xs]})
-            f = T._time_conversion_functions[f"{u}_to_{v}"]
+            f = getattr(T, f"{u}_to_{v}")       # the public converter functions
             real.append([f(float(x)) for x in xs])
     res = corr.model_results(ops)
     bad = []
@@ -173,7 +173,7 @@ def factory_correspondence(run, rnd, dates, n_toy):
         run.broke("correspondence", "create_time_conversion_functions vs TimeConv.create", json.dumps(bad[:2], ensure_ascii=False))
 
 
-def graph_search(run, rnd, dates, n_pops):
+def graph_search(run, rnd, dates, n_pops, n_alt=5):
     rx = real_regex()
     for date in dates:
         nodes = popgen.computed_nodes(date)
@@ -243,17 +243,31 @@ def graph_search(run, rnd, dates, n_pops):
                                 f"{o} at {date} is not {n} x {factor(u, v)} when {n} is supplied in the data",
                                 {"date": date, "data": popgen.frame_to_json(d2), "node": o,
                                  "expected": exp.tolist()[:30], "observed": res2[o].tolist()[:30]})
-            # supplying an input in another time unit gives the same results
-            alt = df.drop(columns=["bruttolohn_m"]).assign(bruttolohn_y=df["bruttolohn_m"] * 12.0)
+            # supplying an input in another time unit gives the same results: (unit of the input, unit supplied) pairs
+            # are drawn evenly, then an input of that unit
+            flow_inputs = {}
+            for c in df.columns:
+                m = rx.fullmatch(c)
+                if m and df[c].dtype.kind == "f":
+                    flow_inputs.setdefault(m.group("time_unit"), []).append((c, m.group("base_name"), m.group("aggregation") or ""))
+            pairs = [(u, v) for u in flow_inputs for v in UNITS if v != u]
             ok, r1 = run.attempt("default targets", popgen.simulate, df, date)
-            ok2, r2 = run.attempt("default targets with bruttolohn_y instead of bruttolohn_m", popgen.simulate, alt, date)
-            if ok and ok2:
-                run.case({"alt-unit": "bruttolohn_y", "date": date, "pop": k})
-                for c in r1.columns:
-                    if not popgen.close(r1[c].to_numpy(), r2[c].to_numpy(), rel=1e-9):
-                        run.hit({"node": c, "kind": "input-in-other-unit-changes-result"},
-                                f"{c} changes when bruttolohn is supplied per year instead of per month at {date}",
-                                {"date": date, "data": popgen.frame_to_json(df), "node": c})
+            for u, v in (rnd.sample(pairs, min(len(pairs), n_alt)) if ok else []):
+                c, b, a = rnd.choice(flow_inputs[u])
+                c2 = f"{b}{v}{a}"
+                if c2 in df.columns:
+                    continue
+                alt = df.drop(columns=[c]).assign(**{c2: df[c] * float(factor(u, v))})
+                ok2, r2 = run.attempt(f"default targets with {c2} instead of {c}", popgen.simulate, alt, date)
+                if not ok2:
+                    continue
+                run.case({"alt-unit": [c, c2], "date": date, "pop": k})
+                for t in r1.columns:
+                    if not popgen.close(r1[t].to_numpy(), r2[t].to_numpy(), rel=1e-9):
+                        run.hit({"node": t, "kind": "input-in-other-unit-changes-result", "units": f"{v}->{u}"},
+                                f"{t} changes when {c} is supplied as {c2} (= {c} x {factor(u, v)}) at {date}",
+                                {"date": date, "data": popgen.frame_to_json(alt), "node": t, "instead_of": c, "supplied": c2})
+                        break
 
 
 def run(tier: str) -> int:
@@ -269,7 +283,7 @@ def run(tier: str) -> int:
     parser_correspondence(r, rnd, 300 if quick else 5000)
     converter_correspondence(r)
     factory_correspondence(r, rnd, popgen.DATES_QUICK if quick else popgen.DATES_2015[::3], 40 if quick else 600)
-    graph_search(r, rnd, popgen.DATES_QUICK if quick else popgen.DATES_2015, 2 if quick else 10)
+    graph_search(r, rnd, popgen.DATES_QUICK if quick else popgen.DATES_2015, 2 if quick else 10, n_alt=5 if quick else 12)
     r.sample({"name": "eink_st_y_sn", "parsed": ["eink_st_", "y", "_sn"], "derived": "eink_st_m_sn = eink_st_y_sn / 12"})
     return r.finish()
 
